@@ -46,6 +46,9 @@ pub enum Op {
     TinySwap { pair: u8, dir: bool, units: u16, user: u8 },
     /// router flash loan on vault i (0: uwhale, 1: uusdc, 2: tokx) with proceeds covering the fees
     Loan { vault: u8, k: u16, user: u8 },
+    /// the same with the amount sized so that the vault's protocol fee on it is `fee_units` base units
+    /// (fee states of a vault: 1, just below / at / just above 1000, a few hundred)
+    TinyLoan { vault: u8, fee_units: u16, user: u8 },
     SetTakeRate { rate: TakeRate, dao: bool },
     /// route management: 0 uusdc->uwhale, 1 tokx->uwhale, 2 uatom->uusdc->uwhale
     AddRoute { which: u8 },
@@ -102,6 +105,7 @@ fn op() -> BoxedStrategy<Op> {
         8 => (0u8..3, any::<bool>(), 1u16..20000, 0u8..3).prop_map(|(pair, dir, k, user)| Op::Swap { pair, dir, k, user }),
         3 => (0u8..3, any::<bool>(), 1u16..3000, 0u8..3).prop_map(|(pair, dir, units, user)| Op::TinySwap { pair, dir, units, user }),
         5 => (0u8..3, 1u16..40000, 0u8..3).prop_map(|(vault, k, user)| Op::Loan { vault, k, user }),
+        3 => (0u8..3, prop_oneof![Just(1u16), Just(999), Just(1000), Just(1001), 1u16..1000, 1u16..3000], 0u8..3).prop_map(|(vault, fee_units, user)| Op::TinyLoan { vault, fee_units, user }),
         3 => (take_rate(), any::<bool>()).prop_map(|(rate, dao)| Op::SetTakeRate { rate, dao }),
         2 => (0u8..3).prop_map(|which| Op::AddRoute { which }),
         1 => (0u8..3).prop_map(|which| Op::RemoveRoute { which }),
@@ -448,7 +452,7 @@ impl Check for FeePipeline {
         "fee_pipeline_new_epoch"
     }
     fn rule(&self) -> &'static str {
-        "full hub: 3 constant-product pairs (uwhale/uusdc, uwhale/cw20, uusdc/uatom), 3 vaults (uwhale, uusdc, cw20), pool router with generated initial routes to the distribution asset (1-hop, 1-hop cw20, 2-hop), collector, distributor (grace 1..4), lair; up to 40/100 operations {swaps and tiny swaps (fee states 0 / <= 1000 / above), router flash loans, take-rate changes in {inactive, 0, 1e-18, 0.1, ~1, random} with/without DAO address, add/remove route, disable swaps on a pair (simulation passes, execution fails), de-register a pair, drain a pair's liquidity, donations to the collector, ForwardFees by non-distributors, claims, grace-period increases, NewEpoch on time or late}. Oracle per NewEpoch: failure => world snapshot unchanged; success => every registered pair's pending entries above 1000 and every vault's pending fees are 0 and what left them arrived in the collector, each non-distribution asset in the collector is either untouched (+collected) or fully swapped (0), the pool router holds nothing, DAO delta == floor(rate * (DAO delta + distributor inflow)) iff the take rate is active (and TakeRateHistory records it) else 0, distributor inflow == new epoch total - rolled-over remainder, the collector's distribution-asset balance is 0 afterwards. ForwardFees from anyone but the distributor is rejected. Non-trivial: a successful NewEpoch with non-zero collected fees from >= 1 pair and >= 1 vault."
+        "full hub: 3 constant-product pairs (uwhale/uusdc, uwhale/cw20, uusdc/uatom), 3 vaults (uwhale, uusdc, cw20), pool router with generated initial routes to the distribution asset (1-hop, 1-hop cw20, 2-hop), collector, distributor (grace 1..4), lair; up to 40/100 operations {swaps and tiny swaps (fee states 0 / <= 1000 / above), router flash loans and tiny router flash loans (vault fee states 1 / 999 / 1000 / 1001 / a few hundred), take-rate changes in {inactive, 0, 1e-18, 0.1, ~1, random} with/without DAO address, add/remove route, disable swaps on a pair (simulation passes, execution fails), de-register a pair, drain a pair's liquidity, donations to the collector, ForwardFees by non-distributors, claims, grace-period increases, NewEpoch on time or late}. Oracle per NewEpoch: failure => world snapshot unchanged; success => every registered pair's pending entries above 1000 and every vault's pending fees are 0 and what left them arrived in the collector, each non-distribution asset in the collector is either untouched (+collected) or fully swapped (0), the pool router holds nothing, DAO delta == floor(rate * (DAO delta + distributor inflow)) iff the take rate is active (and TakeRateHistory records it) else 0, distributor inflow == new epoch total - rolled-over remainder, the collector's distribution-asset balance is 0 afterwards. ForwardFees from anyone but the distributor is rejected. Non-trivial: a successful NewEpoch with non-zero collected fees from >= 1 pair and >= 1 vault."
     }
     fn strategy(&self, tier: Tier) -> BoxedStrategy<Case> {
         let max_ops = tier.pick(40usize, 100usize);
@@ -502,11 +506,25 @@ impl Check for FeePipeline {
                         rec.class("tiny_swap_ok");
                     }
                 }
-                Op::Loan { vault, k, user } => {
+                Op::Loan { .. } | Op::TinyLoan { .. } => {
+                    let (vault, user) = match op {
+                        Op::Loan { vault, user, .. } | Op::TinyLoan { vault, user, .. } => (vault, user),
+                        _ => unreachable!(),
+                    };
                     let i = (*vault % 3) as usize;
                     let info = h.assets[h.vault_assets[i]].clone();
                     let bal = h.w.bal(&info, &h.vaults[i]);
-                    let amt = gen::frac(*k, bal).max(1);
+                    let amt = match op {
+                        Op::Loan { k, .. } => gen::frac(*k, bal).max(1),
+                        // smallest amount whose protocol fee floors to fee_units
+                        Op::TinyLoan { fee_units, .. } => {
+                            let share = c.vault_fees[0].u128().max(1);
+                            let a = to_u128((u(*fee_units as u128) * u(1_000_000_000_000_000_000) + u(share - 1)) / u(share)).unwrap_or(1);
+                            rec.class("tiny_loan");
+                            a.clamp(1, bal.max(1))
+                        }
+                        _ => unreachable!(),
+                    };
                     let who = h.w.users[(*user % 3) as usize].clone();
                     let pay: CosmosMsg = WasmMsg::Execute {
                         contract_addr: h.purse.to_string(),
@@ -772,6 +790,9 @@ impl Check for FeePipeline {
                             pend_vaults[i],
                             loan_fee[i]
                         );
+                        if (1..=1000).contains(&pend_vaults[i]) {
+                            rec.class("vault_fee_of_at_most_1000_collected");
+                        }
                         if inside_loan.is_some() && pend_vaults[i] > 0 {
                             rec.class("vault_fees_collected_by_an_epoch_created_inside_a_loan");
                         }
